@@ -420,15 +420,28 @@ impl TryFrom<super::safe::SchemaMut> for Schema {
 			// Safety:
 			// - UnionVariantsPerTypeLookup won't ever read `per_type_lookup` of the other
 			//   nodes, so there are no aliasing issues.
+			// - The table is fully built from shared references before we take the
+			//   mutable reference used to store it: a union may have itself as
+			//   variant (if it is not reachable from the root this is not caught
+			//   earlier), in which case building the table reads the very node we are
+			//   about to update.
 			unsafe {
-				match *curr_storage_node_ptr {
-					SchemaNode::Union(Union {
-						ref variants,
-						ref mut per_type_lookup,
-					}) => {
-						*per_type_lookup = UnionVariantsPerTypeLookup::new(variants);
+				let per_type_lookup = match *curr_storage_node_ptr {
+					SchemaNode::Union(Union { ref variants, .. }) => {
+						Some(UnionVariantsPerTypeLookup::new(variants))
 					}
-					_ => {}
+					_ => None,
+				};
+				if let Some(new_per_type_lookup) = per_type_lookup {
+					match *curr_storage_node_ptr {
+						SchemaNode::Union(Union {
+							ref mut per_type_lookup,
+							..
+						}) => {
+							*per_type_lookup = new_per_type_lookup;
+						}
+						_ => unreachable!(),
+					}
 				}
 				curr_storage_node_ptr = curr_storage_node_ptr.add(1);
 			}
